@@ -142,6 +142,7 @@ struct TopoMachine : Machine {
     setenv("HWLOC_DONT_ADD_VERSION_INFO", "1", 1);   // otherwise every load appends hwlocVersion/ProcessName infos of this process
     setenv("HWLOC_HIDE_ERRORS", "2", 1);   // error verbosity is cached too; keep stderr quiet
     unsetenv("HWLOC_XMLFILE"); unsetenv("HWLOC_SYNTHETIC"); unsetenv("HWLOC_FSROOT"); unsetenv("HWLOC_COMPONENTS");
+    unsetenv("HWLOC_CPUID_PATH"); unsetenv("HWLOC_DUMPED_HWDATA_DIR");   // set around snapshot loads only (ops_snapshot.cc)
   }
 
   // ------------------------------------------------------------------ plan generation
@@ -244,6 +245,37 @@ struct TopoMachine : Machine {
       else if (ks == "set_userdata") o.set("o", (int64_t)ops.below(1000)).set("tok", (int64_t)ops.below(100000));
       p.ops.push_back(o);
     }
+    // snapshot sources (ops_snapshot.cc). Generated apart from the alphabet above so that the plans of the other properties keep their draws.
+    size_t nsnap = snapshot_count();
+    auto snap_args = [&](Op &o, Rng &g, bool faults) {
+      std::string f(HWLOC_OBJ_TYPE_MAX, '-'); int fm = (int)g.below(5);   // same filter assignments as the cfg line
+      for (int ty = 0; ty < HWLOC_OBJ_TYPE_MAX; ty++) { if (fm == 1) f[ty] = '0'; else if (fm == 2) f[ty] = '2'; else if (fm == 3) f[ty] = (char)('0' + g.below(4)); else if (fm == 4 && g.chance(1, 4)) f[ty] = (char)('0' + g.below(4)); }
+      unsigned long fl = 0;
+      if (g.chance(1, 3)) fl |= HWLOC_TOPOLOGY_FLAG_INCLUDE_DISALLOWED; if (g.chance(1, 6)) fl |= HWLOC_TOPOLOGY_FLAG_THISSYSTEM_ALLOWED_RESOURCES; if (g.chance(1, 8)) fl |= HWLOC_TOPOLOGY_FLAG_IMPORT_SUPPORT;
+      if (g.chance(1, 6)) fl |= HWLOC_TOPOLOGY_FLAG_NO_DISTANCES; if (g.chance(1, 6)) fl |= HWLOC_TOPOLOGY_FLAG_NO_MEMATTRS; if (g.chance(1, 6)) fl |= HWLOC_TOPOLOGY_FLAG_NO_CPUKINDS;
+      int nrem = 0; if (faults) { int c = (int)g.below(4); nrem = c == 0 ? 0 : c <= 2 ? (int)g.range(1, 3) : (int)g.range(4, 40); }
+      o.set("snap", (int64_t)g.below(nsnap ? nsnap : 1)).set("comp", (int64_t)g.below(4)).set("env", g.chance(1, 3) ? (int64_t)g.below(3) + 1 : 0).set("nrem", nrem).setu("rs", g.next()).sets("filt", f).setu("flags", fl);
+    };
+    if (prop == "C18" && nsnap) {
+      p.seth("src", "synthetic pack:1 core:2 pu:2");   // the world needs a replica r0; the evaluations are the snapshot loads
+      p.ops.clear();
+      int n = (int)ops.range(3, 8);
+      for (int s = 0; s < n; s++) {
+        Op o("snap_load"); snap_args(o, ops, true);
+        o.setu("rdperm", ops.chance(1, 4) ? (ops.next() | 1) : 0);
+        o.set("check", (ops.chance(1, 2) ? 1 : 0) | (ops.chance(1, 3) ? 2 : 0) | (ops.chance(1, 2) ? 4 : 0) | (ops.chance(1, 2) ? 8 : 0));
+        p.ops.push_back(o);
+      }
+      if (tier == "thorough") {   // the enumerated part of the fault space: chunks drawn by the seed, coverage reported by distinct sets
+        int ne = (int)ops.range(1, 3);
+        for (int s = 0; s < ne; s++) {
+          Op o("snap_enum"); snap_args(o, ops, false); bool pair = ops.chance(4, 5);
+          o.sets("which", pair ? "pair" : "single").setu("from", ops.next() >> 1).set("count", pair ? 120 : 40);
+          p.ops.push_back(o);
+        }
+      }
+    }
+    if (prop == "C01" && nsnap && ops.chance(1, 4)) { Op o("snap_load"); snap_args(o, ops, false); o.set("rdperm", 0).set("check", 0); p.ops.push_back(o); }   // C01 quantifies over snapshot sources too
     return p;
   }
 
@@ -265,6 +297,7 @@ struct TopoMachine : Machine {
       bool repl_op = o.kind == "dup" || o.kind == "xml_restart" || o.kind == "destroy" || o.kind == "shm_adopt";
       if (o.kind == "battery") { int bi = w.pick(o.u("r")); if (bi >= 0) { Replica &BR = w.r[bi]; if (!BR.last.ok) observe(w, bi, ""); battery(w, bi, o.u("qs"), (int)(o.u("nq") % 40) + 5); r.ev("battery r%d", bi); } continue; }
       if (o.kind == "xml_fault" || o.kind == "diffxml_fault") { ops_xmlfault(w, o); continue; }
+      if (o.kind == "snap_load" || o.kind == "snap_enum") { ops_snapshot(w, o); continue; }
       if (repl_op) { if (!ops_repl(w, o) && !ops_shm(w, o)) r.ev("unknown op %s", o.kind.c_str()); continue; }
       int ri = w.pick(o.u("r")); if (ri < 0) break;
       exec_on(w, o, ri);
